@@ -73,6 +73,13 @@ class CursorProxy:
     def execute(self, sql, *a):
         sched_gate('sql:' + sql.split()[0].lower(), self._path)
         return self._cur.execute(sql, *a)
+    def executescript(self, script):
+        # a script runs statement by statement, each one committing by itself (that is what sqlite3's executescript does): every statement is a
+        # scheduling point of its own
+        for stmt in [x.strip() for x in script.split(';') if x.strip()]:
+            sched_gate('sql:' + stmt.split()[0].lower(), self._path)
+            self._cur.executescript(stmt + ';')
+        return self._cur
     def __getattr__(self, n): return getattr(self._cur, n)
 
 
